@@ -444,6 +444,7 @@ class Engine(StmtMixin, EvalMixin, Interp):
         X["itertools.islice"] = self.ext_islice
         X["itertools.count"] = lambda interp, a, k: LazySeq(None, lambda i, _s=(a[0] if a else 0): _s + i, "count")
         X["itertools.zip_longest"] = self.ext_zip_longest
+        X["itertools.groupby"] = self.ext_groupby
         X["warnings.warn"] = lambda interp, a, k: None
         X["dataclasses.astuple"] = lambda interp, a, k: tuple(
             a[0].attrs[f] for c in reversed(a[0].cls.mro(interp.repo)) for f in _dc_fields(c))
@@ -648,8 +649,27 @@ class Engine(StmtMixin, EvalMixin, Interp):
                     raise PyExc("KeyError", "set")
         if isinstance(v, str):
             if name == "format":
+                if any(isinstance(a, SymStr) for a in list(args) + list(kwargs.values())):
+                    # symbolic text: only plain positional "{}" fields (what the repo uses to join sequence data)
+                    import string
+                    pieces, nxt = [], 0
+                    for lit, field, spec, conv in string.Formatter().parse(v):
+                        if lit:
+                            pieces.append(lit)
+                        if field is None:
+                            continue
+                        if field != "" or spec or conv or nxt >= len(args):
+                            raise Unsupported("str.format with symbolic text and a non-trivial field")
+                        a = args[nxt]
+                        nxt += 1
+                        if not isinstance(a, (str, SymStr)):
+                            raise Unsupported("str.format mixing symbolic text and other values")
+                        pieces.append(a)
+                    return self.symstr_concat(pieces)
                 if any(is_sym(a) or isinstance(a, (Obj, Opaque, EnumVal)) for a in list(args) + list(kwargs.values())):
                     return Opaque("str")
+                if any(not isinstance(a, (str, int, float, bool, type(None))) for a in list(args) + list(kwargs.values())):
+                    raise Unsupported("str.format of an engine value")
                 return v.format(*args, **kwargs)
             if name == "join" and v == "":
                 src = self.resolve(args[0])
@@ -818,6 +838,24 @@ class Engine(StmtMixin, EvalMixin, Interp):
         for a in args:
             out.extend(self.iterate_concrete(a))
         return SymIter(out, 0)
+
+    def ext_groupby(self, interp, args, kw):
+        """itertools.groupby(iterable, key): consecutive runs of equal keys, as (key, list-of-items) pairs (the real
+        function yields lazy sub-iterators; the repo's uses consume each group before advancing, for which a list is
+        equivalent).  Equality of symbolic keys forks the path."""
+        self.trusted_used.add("itertools.groupby")
+        items = self.iterate_concrete(args[0])
+        key = kw.get("key", args[1] if len(args) > 1 else None)
+        out = []
+        for x in items:
+            k = self.call(key, [x], {}) if key is not None else x
+            if out:
+                same = self.sym_eq(out[-1][0], k)
+                if self.branch(same if isinstance(same, bool) or is_symbool(same) else self.truth(same)):
+                    out[-1][1].append(x)
+                    continue
+            out.append((k, [x]))
+        return SymIter([(k, SymIter(list(g), 0)) for k, g in out], 0)
 
     def ext_islice(self, interp, args, kw):
         self.trusted_used.add("itertools.islice")
